@@ -7,6 +7,8 @@
 #undef strdup
 #include <algorithm>
 #include <cstring>
+#include <unicode/unorm2.h>
+#include <unicode/ustring.h>
 
 namespace cm {
 
@@ -211,6 +213,111 @@ bool parse_doc(const std::string &s, Doc &out) {
         Container b; if (!parse_cont(s, p, b)) return false;
         out.blocks.push_back(b);
     }
+}
+
+// ---- normalisation + equivalence ----------------------------------------------------------
+static ustr unorm2_apply(const UNormalizer2 *n, const ustr &s) {
+    UErrorCode ec = U_ZERO_ERROR;
+    std::vector<UChar> buf(s.size() * 4 + 16);
+    int32_t len = unorm2_normalize(n, (const UChar *) s.data(), (int32_t) s.size(), buf.data(), (int32_t) buf.size(), &ec);
+    if (U_FAILURE(ec)) return s;
+    return ustr((const char16_t *) buf.data(), (size_t) len);
+}
+ustr nfc(const ustr &s) { UErrorCode ec = U_ZERO_ERROR; return unorm2_apply(unorm2_getNFCInstance(&ec), s); }
+ustr nfd(const ustr &s) { UErrorCode ec = U_ZERO_ERROR; return unorm2_apply(unorm2_getNFDInstance(&ec), s); }
+ustr norm_name(const ustr &s) {
+    ustr d = nfd(s);
+    UErrorCode ec = U_ZERO_ERROR;
+    std::vector<UChar> buf(d.size() * 3 + 16);
+    int32_t len = u_strFoldCase(buf.data(), (int32_t) buf.size(), (const UChar *) d.data(), (int32_t) d.size(), U_FOLD_CASE_DEFAULT, &ec);
+    if (U_FAILURE(ec)) return s;
+    return nfc(ustr((const char16_t *) buf.data(), (size_t) len));
+}
+
+std::string value_equiv_diff(const Value &a, const Value &b) {
+    auto textual = [](const Value &v) { return v.k == Value::CHAR || v.k == Value::NUMB; };
+    if (textual(a) || textual(b)) {
+        if (!(textual(a) && textual(b))) return "kind differs: " + ser(a) + " vs " + ser(b);
+        if (a.text != b.text) return "text differs: " + ser(a) + " vs " + ser(b);
+        if (a.quoted != b.quoted && !(!a.quoted && b.quoted && !a.text.empty() && a.text[0] == u';')) return "quoted status differs: " + ser(a) + " vs " + ser(b);
+        return "";
+    }
+    if (a.k != b.k) return "kind differs: " + ser(a) + " vs " + ser(b);
+    if (a.k == Value::LIST) {
+        if (a.elems.size() != b.elems.size()) return "list length differs: " + ser(a) + " vs " + ser(b);
+        for (size_t i = 0; i < a.elems.size(); i++) { std::string d = value_equiv_diff(a.elems[i], b.elems[i]); if (!d.empty()) return d; }
+    } else if (a.k == Value::TABLE) {
+        if (a.entries.size() != b.entries.size()) return "table size differs: " + ser(a) + " vs " + ser(b);
+        for (auto &e : a.entries) {
+            const Value *m = nullptr;
+            for (auto &f : b.entries) if (nfc(f.first) == nfc(e.first)) m = &f.second;
+            if (!m) return "table key missing after round trip: " + vh::uesc(e.first);
+            std::string d = value_equiv_diff(e.second, *m); if (!d.empty()) return d;
+        }
+    }
+    return "";
+}
+
+namespace {
+struct CLoop { std::vector<ustr> names; bool scalar; std::vector<std::vector<const Value *>> rows; std::vector<std::string> keys; };
+CLoop canon_loop(const Loop &l) {
+    CLoop c; c.scalar = l.is_scalar();
+    std::vector<size_t> idx(l.names.size());
+    std::vector<ustr> nn; for (auto &n : l.names) nn.push_back(norm_name(n));
+    for (size_t i = 0; i < idx.size(); i++) idx[i] = i;
+    std::sort(idx.begin(), idx.end(), [&](size_t x, size_t y) { return nn[x] < nn[y]; });
+    for (auto i : idx) c.names.push_back(nn[i]);
+    std::vector<std::pair<std::string, std::vector<const Value *>>> rows;
+    for (auto &r : l.rows) {
+        std::vector<const Value *> row; std::string k, k2;
+        for (auto i : idx) { const Value *v = i < r.size() ? &r[i] : nullptr; row.push_back(v); k += v ? ser(*v, KEY) : "<missing>"; k += "|"; k2 += v ? ser(*v, EQUIV) : ""; k2 += "|"; }
+        rows.push_back({k + "#" + k2, row});
+    }
+    std::sort(rows.begin(), rows.end(), [](const auto &x, const auto &y) { return x.first < y.first; });
+    for (auto &r : rows) { c.rows.push_back(r.second); c.keys.push_back(r.first); }
+    return c;
+}
+std::string cont_diff(const Container &a, const Container &b, const std::string &path) {
+    std::vector<CLoop> la, lb;
+    for (auto &l : a.loops) la.push_back(canon_loop(l));
+    for (auto &l : b.loops) lb.push_back(canon_loop(l));
+    auto cmp = [](const CLoop &x, const CLoop &y) { return x.names < y.names; };
+    std::sort(la.begin(), la.end(), cmp); std::sort(lb.begin(), lb.end(), cmp);
+    // scalar items may be spread differently over "scalar loop" vs one-packet loops?  No: scalar-ness is part of the model
+    if (la.size() != lb.size()) return path + ": " + std::to_string(la.size()) + " loops originally, " + std::to_string(lb.size()) + " after round trip";
+    for (size_t i = 0; i < la.size(); i++) {
+        if (la[i].names != lb[i].names) return path + ": loop item-name sets differ (" + (la[i].names.empty() ? std::string("") : vh::uesc(la[i].names[0])) + " ... vs " + (lb[i].names.empty() ? std::string("") : vh::uesc(lb[i].names[0])) + " ...)";
+        if (la[i].rows.size() != lb[i].rows.size()) return path + ": packet count differs in loop of " + vh::uesc(la[i].names[0]);
+        for (size_t r = 0; r < la[i].rows.size(); r++) for (size_t j = 0; j < la[i].names.size(); j++) {
+            const Value *x = la[i].rows[r][j], *y = lb[i].rows[r][j];
+            if (!x || !y) { if (x != y) return path + ": missing cell"; continue; }
+            std::string d = value_equiv_diff(*x, *y);
+            if (!d.empty()) return path + " item " + vh::uesc(la[i].names[j]) + ": " + d;
+        }
+    }
+    if (a.frames.size() != b.frames.size()) return path + ": frame count differs";
+    std::vector<std::pair<ustr, const Container *>> fa, fb;
+    for (auto &f : a.frames) fa.push_back({norm_name(f.code), &f});
+    for (auto &f : b.frames) fb.push_back({norm_name(f.code), &f});
+    std::sort(fa.begin(), fa.end()); std::sort(fb.begin(), fb.end());
+    for (size_t i = 0; i < fa.size(); i++) {
+        if (fa[i].first != fb[i].first) return path + ": frame codes differ: " + vh::uesc(fa[i].second->code) + " vs " + vh::uesc(fb[i].second->code);
+        std::string d = cont_diff(*fa[i].second, *fb[i].second, path + "/save_" + vh::uesc(fa[i].second->code)); if (!d.empty()) return d;
+    }
+    return "";
+}
+} // namespace
+std::string equiv_diff(const Doc &a, const Doc &b) {
+    if (a.blocks.size() != b.blocks.size()) return "block count differs: " + std::to_string(a.blocks.size()) + " vs " + std::to_string(b.blocks.size());
+    std::vector<std::pair<ustr, const Container *>> fa, fb;
+    for (auto &f : a.blocks) fa.push_back({norm_name(f.code), &f});
+    for (auto &f : b.blocks) fb.push_back({norm_name(f.code), &f});
+    std::sort(fa.begin(), fa.end()); std::sort(fb.begin(), fb.end());
+    for (size_t i = 0; i < fa.size(); i++) {
+        if (fa[i].first != fb[i].first) return "block codes differ: " + vh::uesc(fa[i].second->code) + " vs " + vh::uesc(fb[i].second->code);
+        std::string d = cont_diff(*fa[i].second, *fb[i].second, "data_" + vh::uesc(fa[i].second->code)); if (!d.empty()) return d;
+    }
+    return "";
 }
 
 // ---- bridges ----------------------------------------------------------------------------
